@@ -50,6 +50,7 @@ func NewBufferedWriteCloser(maxBytes, maxMemBytes int64) *Buffer {
 }
 
 func (b *Buffer) Write(p []byte) (int, error) {
+	defer verifEmit("buffer_write", b, len(p))
 	if b.reader != nil {
 		return 0, ErrWriteAfterRead
 	}
@@ -104,6 +105,7 @@ func (b *Buffer) Close() error {
 	b.closeOnce.Do(func() {
 		b.discardSpill()
 	})
+	verifEmit("buffer_close", b)
 
 	return nil
 }
